@@ -96,6 +96,8 @@ CONVERTERS = {
     # inserted code that behaves differently if the build route compiles with other options (assert / __debug__)
     # inserted code containing braces, percent signs and backslashes (dict / set literals, an f-string, a %-format): inserted as is
     'braces': lambda s: s.code + "\n_k = {'k': 1.5, 'j': {2, 3}}['k'] * len(f'{t:03d}{{}}') + len('%d%%' % t) + len('a\\b')",
+    # ... including text spelled like the class template's own fields
+    'template-fields': lambda s: s.code + "\n_m = len('{lags}{leads}{errors}{exogenous}{parameters}{endogenous}{equations}{docstring}{version}{check}') + len(f'{errors}:{t}')",
     # inserted code with text that looks like annotations (`name: name = value`, `name: name,`): one-line if, dict of names, lambda, slice
     'annotation-lookalikes': lambda s: s.code + "\n_a = t\n_b = 0.5\nif _a < 0: _a = 0\n_d = {_a: _b, _b: _a}\n_f = (lambda q: q, _a)\n_s = [1, 2, 3][_a: _a + 1]",
     'guarded': lambda s: s.code + '\nassert t < 0, "guard"',
